@@ -35,6 +35,7 @@ type Eng struct {
 	funcs map[string]*ssa.Function
 	obls  []*Obl
 	errs  []string
+	roleNames map[string]string
 	repo  string
 }
 
@@ -57,6 +58,18 @@ func funcKey(fn *ssa.Function) string {
 }
 
 func (e *Eng) add(name, fn string, props []string, ok bool, detail string) {
+	// goroutine bodies of ParseNDStream are named by role, not by their ordinal among the anonymous functions
+	if e.roleNames == nil {
+		e.roleNames = map[string]string{}
+		for _, role := range []string{"reader", "worker", "forwarder"} {
+			if f := e.ndRoleQuiet(role); f != nil {
+				e.roleNames[funcKey(f)] = "ParseNDStream." + role
+			}
+		}
+	}
+	if rn, ok := e.roleNames[fn]; ok {
+		fn = rn
+	}
 	st := "discharged"
 	if !ok {
 		st = "failed"
